@@ -372,6 +372,7 @@ func (g G) v1txns(n int) []types.Transaction {
 
 var timeType = reflect.TypeOf(time.Time{})
 var stateType = reflect.TypeOf(consensus.State{})
+var accType = reflect.TypeOf(consensus.ElementAccumulator{})
 var errorType = reflect.TypeOf((*error)(nil)).Elem()
 
 // equalObj compares two values structurally: nil and empty slices are equal
@@ -402,6 +403,20 @@ func eqv(a, b reflect.Value, path string) string {
 		x, y := a.Convert(timeType).Interface().(time.Time), b.Convert(timeType).Interface().(time.Time)
 		if !x.Equal(y) {
 			return fmt.Sprintf("%s: time %v vs %v", path, x, y)
+		}
+		return ""
+	}
+	if a.Type() == accType && a.CanInterface() {
+		// only the trees named by the bits of NumLeaves are part of the value
+		// (the others are not encoded and are never read)
+		x, y := a.Interface().(consensus.ElementAccumulator), b.Interface().(consensus.ElementAccumulator)
+		if x.NumLeaves != y.NumLeaves {
+			return fmt.Sprintf("%s.NumLeaves: %d vs %d", path, x.NumLeaves, y.NumLeaves)
+		}
+		for i := range x.Trees {
+			if x.NumLeaves&(1<<i) != 0 && x.Trees[i] != y.Trees[i] {
+				return fmt.Sprintf("%s.Trees[%d]: %v vs %v", path, i, x.Trees[i], y.Trees[i])
+			}
 		}
 		return ""
 	}
